@@ -313,6 +313,8 @@ def contracts(tier):
         if True:      # big-endian + max_length: known finding (see EXPLANATION and known_findings.json)
             yield ("ConstantStreamGenerator", "wide_big_len7_max16", make_generator(_data(7, 2), "wide", "big", 16, "ss"))
         yield ("ConstantStreamGenerator", "w16_little_len5_max16", make_generator(_data(5, 3), "w16", "little", 16, "sync"))
+        # a max_length register only just wide enough for the limit, on a 4-byte-per-word stream (position + 4 needs one bit more)
+        yield ("ConstantStreamGenerator", "wide_little_len40_max4", make_generator(_data(40, 2), "wide", "little", 4, "ss"))
         yield ("StreamSerializer", "len2_nomax", make_serializer(2, None, "sync"))       # domains as in the thorough list below
         yield ("StreamSerializer", "len5_max8", make_serializer(5, 8, "usb"))           # (same name = same configuration)
         return
@@ -333,6 +335,9 @@ def contracts(tier):
                     continue        # big endian + max_length is a known finding: two representative lengths are enough
                 yield ("ConstantStreamGenerator", f"wide_{endian}_len{n}_{'max%d' % mlw if mlw else 'nomax'}",
                        make_generator(_data(n, 2), "wide", endian, mlw, "ss"))
+    yield ("ConstantStreamGenerator", "wide_little_len40_max4", make_generator(_data(40, 2), "wide", "little", 4, "ss"))
+    yield ("ConstantStreamGenerator", "wide_little_len40_max5", make_generator(_data(40, 2), "wide", "little", 5, "ss"))
+    yield ("ConstantStreamGenerator", "byte_len40_max4", make_generator(_data(40), "byte", "little", 4, "usb"))
     # ---- 16-bit payload, single valid bit, bytes constant
     for n in ((5, 8) if quick else (1, 2, 3, 4, 5, 8, 9, 18)):
         for mlw in gen_mlws2:
